@@ -37,13 +37,23 @@ func (c Class) String() string {
 type Error struct {
 	Class Class
 	Msg   string
+	// Part of the format the error arose in: meta (magic, section table),
+	// index, response, primary, manifest, signatures.
+	Part string
+}
+
+func (e *Error) in(part string) *Error {
+	if e != nil && e.Part == "" {
+		e.Part = part
+	}
+	return e
 }
 
 func (e *Error) Error() string { return e.Class.String() + ": " + e.Msg }
 
-func loc(f string, a ...any) *Error   { return &Error{RejectLocation, fmt.Sprintf(f, a...)} }
-func other(f string, a ...any) *Error { return &Error{RejectOther, fmt.Sprintf(f, a...)} }
-func dc(f string, a ...any) *Error    { return &Error{DontCare, fmt.Sprintf(f, a...)} }
+func loc(f string, a ...any) *Error   { return &Error{Class: RejectLocation, Msg: fmt.Sprintf(f, a...)} }
+func other(f string, a ...any) *Error { return &Error{Class: RejectOther, Msg: fmt.Sprintf(f, a...)} }
+func dc(f string, a ...any) *Error    { return &Error{Class: DontCare, Msg: fmt.Sprintf(f, a...)} }
 
 type Section struct {
 	Name     string
@@ -135,10 +145,22 @@ func parseURL(raw string, needAbs bool) (string, *Error) {
 	return u.String(), nil
 }
 
+func otherIn(part, f string, a ...any) *Error { return other(f, a...).in(part) }
+func locIn(part, f string, a ...any) *Error   { return loc(f, a...).in(part) }
+func dcIn(part, f string, a ...any) *Error    { return dc(f, a...).in(part) }
+
 func addOv(a, b uint64) (uint64, bool) { s := a + b; return s, s < a }
 
 // Extract parses b; the error (if any) is always an *Error.
 func Extract(b []byte) (*Parsed, *Error) {
+	p, e := extract(b)
+	if e != nil {
+		return nil, e.in("meta")
+	}
+	return p, nil
+}
+
+func extract(b []byte) (*Parsed, *Error) {
 	p := &Parsed{}
 	if len(b) < 15 {
 		return nil, other("shorter than the magic")
@@ -239,65 +261,65 @@ func Extract(b []byte) (*Parsed, *Error) {
 			ir := &rd{b: c}
 			m, e := ir.head(5)
 			if e != nil {
-				return nil, e
+				return nil, e.in("index")
 			}
 			entries = nil
 			for i := uint64(0); i < m; i++ {
 				raw, e := ir.str(3)
 				if e != nil {
-					return nil, e
+					return nil, e.in("index")
 				}
 				us, e := parseURL(string(raw), false)
 				if e != nil {
-					return nil, e
+					return nil, e.in("index")
 				}
 				na, e := ir.head(4)
 				if e != nil {
-					return nil, e
+					return nil, e.in("index")
 				}
 				en := entry{raw: string(raw), url: us}
 				nloc := uint64(1)
 				if p.Version == "b2" {
 					if na != 2 {
-						return nil, other("index value must have 2 elements")
+						return nil, otherIn("index", "index value must have 2 elements")
 					}
 				} else {
 					if na == 0 {
-						return nil, other("index value empty")
+						return nil, otherIn("index", "index value empty")
 					}
 					vv, e := ir.str(2)
 					if e != nil {
-						return nil, e
+						return nil, e.in("index")
 					}
 					if len(vv) == 0 {
 						if na != 3 {
-							return nil, other("index value must have 3 elements")
+							return nil, otherIn("index", "index value must have 3 elements")
 						}
 					} else {
 						ll, err := rsh.ParseListOfLists(string(vv))
 						if err == rsh.DontCare {
-							return nil, dc("variants value with recipient-dependent syntax")
+							return nil, dcIn("index", "variants value with recipient-dependent syntax")
 						}
 						if err != nil {
-							return nil, other("variants value: %v", err)
+							return nil, otherIn("index", "variants value: %v", err)
 						}
 						k := uint64(1)
 						for _, inner := range ll {
 							for _, it := range inner {
 								if it.Kind != rsh.String && it.Kind != rsh.Token {
-									return nil, other("variants value item type")
+									return nil, otherIn("index", "variants value item type")
 								}
 							}
 							if len(inner) <= 1 {
-								return nil, other("variants axis without values")
+								return nil, otherIn("index", "variants axis without values")
 							}
 							k *= uint64(len(inner) - 1)
 							if k > 10000 {
-								return nil, other("too many variant keys")
+								return nil, otherIn("index", "too many variant keys")
 							}
 						}
 						if na != 2*k+1 {
-							return nil, other("index value size %d for %d variant keys", na, k)
+							return nil, otherIn("index", "index value size %d for %d variant keys", na, k)
 						}
 						nloc = k
 					}
@@ -305,18 +327,18 @@ func Extract(b []byte) (*Parsed, *Error) {
 				for j := uint64(0); j < nloc; j++ {
 					o, e := ir.head(0)
 					if e != nil {
-						return nil, e
+						return nil, e.in("index")
 					}
 					l, e := ir.head(0)
 					if e != nil {
-						return nil, e
+						return nil, e.in("index")
 					}
 					end, ov := addOv(o, l)
 					if ov {
-						return nil, loc("index entry %q: offset %d + length %d overflows", raw, o, l)
+						return nil, locIn("index", "index entry %q: offset %d + length %d overflows", raw, o, l)
 					}
 					if end > resp.Len {
-						return nil, loc("index entry %q: [%d,%d) outside the responses section (%d bytes)", raw, o, end, resp.Len)
+						return nil, locIn("index", "index entry %q: [%d,%d) outside the responses section (%d bytes)", raw, o, end, resp.Len)
 					}
 					en.locs = append(en.locs, [2]uint64{resp.Off + o, l})
 				}
@@ -326,28 +348,28 @@ func Extract(b []byte) (*Parsed, *Error) {
 			pr := &rd{b: c}
 			raw, e := pr.str(3)
 			if e != nil {
-				return nil, e
+				return nil, e.in("primary")
 			}
 			us, e := parseURL(string(raw), true)
 			if e != nil {
-				return nil, e
+				return nil, e.in("primary")
 			}
 			p.Primary = &us
 		case "manifest":
 			pr := &rd{b: c}
 			raw, e := pr.str(3)
 			if e != nil {
-				return nil, e
+				return nil, e.in("manifest")
 			}
 			us, e := parseURL(string(raw), true)
 			if e != nil {
-				return nil, e
+				return nil, e.in("manifest")
 			}
 			p.Manifest = &us
 		case "signatures":
 			sg, e := parseSignatures(c)
 			if e != nil {
-				return nil, e
+				return nil, e.in("signatures")
 			}
 			p.Signatures = sg
 		}
@@ -356,7 +378,7 @@ func Extract(b []byte) (*Parsed, *Error) {
 		for _, l := range en.locs {
 			ex, e := parseResponse(b[l[0] : l[0]+l[1]])
 			if e != nil {
-				return nil, e
+				return nil, e.in("response")
 			}
 			ex.URL, ex.RawURL, ex.Off, ex.Len = en.url, en.raw, l[0], l[1]
 			p.Exchanges = append(p.Exchanges, *ex)
